@@ -569,7 +569,7 @@ func (vc *VC) havocAll(st *State) {
 	keep := map[string]string{}
 	defer func(e int) {}(st.epoch)
 	for k, v := range st.heap {
-		if k == tokKey || k == freshKey || strings.HasPrefix(k, "#fifo.") || k == "#held" {
+		if k == tokKey || k == freshKey || strings.HasPrefix(k, "#fifo.") || k == "#held" || k == "#waited" {
 			keep[k] = v
 		}
 		if strings.HasPrefix(k, "#ghost.") {
